@@ -10,9 +10,48 @@ inductive St where
   | qu (u : QuickUnion)
   | wq (u : Weighted)
 
+/-- `QuickUnion.union` with the binds of the `Outcome` monad written out as matches.  The compiled
+`QuickUnion.union` keeps `u` alive inside the closure of its last bind (for `u.count`), so `setIdx` finds the
+array shared and copies it: a history of `n` unions on `n` elements costs `n²` there (minutes for n = 65536).
+Here `u` is taken apart before the write, the array is uniquely referenced and updated in place.
+`quUnionFast_eq` (kernel-checked, below) says the two are the same function. -/
+def quUnionFast (u : QuickUnion) (p q : Int) : Outcome QuickUnion :=
+  if !u.isValid p || !u.isValid q then .ok u
+  else
+    match u.find p with
+    | .panic => .panic
+    | .diverge => .diverge
+    | .ok (proot, _) =>
+      match u.find q with
+      | .panic => .panic
+      | .diverge => .diverge
+      | .ok (qroot, _) =>
+        if proot = qroot then .ok u
+        else
+          match u with
+          | ⟨count, root⟩ =>
+            match setIdx root proot qroot with
+            | .ok root' => .ok { count := count - 1, root := root' }
+            | .panic => .panic
+            | .diverge => .diverge
+
+theorem quUnionFast_eq (u : QuickUnion) (p q : Int) : quUnionFast u p q = u.union p q := by
+  unfold quUnionFast QuickUnion.union
+  split
+  · rfl
+  · cases hp : u.find p <;> simp only [bind, Outcome.bind]
+    rename_i a; obtain ⟨proot, bp⟩ := a
+    cases hq : u.find q <;> simp only
+    rename_i b; obtain ⟨qroot, bq⟩ := b
+    simp only
+    split
+    · rfl
+    · obtain ⟨count, root⟩ := u
+      cases setIdx root proot qroot <;> rfl
+
 def St.union : St → Int → Int → Outcome St
   | .qf u, p, q => (u.union p q).map .qf
-  | .qu u, p, q => (u.union p q).map .qu
+  | .qu u, p, q => (quUnionFast u p q).map .qu
   | .wq u, p, q => (u.union p q).map .wq
 
 def St.find : St → Int → Outcome (Int × Bool)
@@ -46,7 +85,11 @@ def runOps (s0 : St) (ops : List String) : List String := Id.run do
     | ["union", p, q] =>
       match parseInt? p, parseInt? q with
       | some p, some q =>
-        match s.union p q with
+        -- the state is moved out of `s` before the call, so that the arrays are uniquely referenced and
+        -- `setIfInBounds` updates them in place (otherwise every Union copies them: quadratic for large n)
+        let s0 := s
+        s := .qf { count := 0, id := #[] }
+        match s0.union p q with
         | .ok s' => s := s'; out := out.push "ok"
         | .panic => dead := true; out := out.push "panic"
         | .diverge => dead := true; out := out.push "hang"
